@@ -343,6 +343,17 @@ for _k, _v in {
     "C16": " Also: parse_expr returns only type-checked trees (typed-tree), the invariant the counted typing unwraps rest on.",
 }.items():
     ADDED[_k] = (ADDED.get(_k, "") + _v).strip()
+# round 18 and the observations triaged after it (session 7)
+for _k, _v in {
+    "C02": " Also: the equality of class types compares their members (class-identity).",
+    "C03": " Also: the directional tolerance of eq_complex does not reach the parts of two map types; for growable lists it does (container-invariance: known finding).",
+    "C04": " Also: an option that run and execute both offer (--stack-size) has one default (cli-defaults).",
+    "C07": " Also: a declaration does not cancel the dependencies of its own initializer, a from / while / if statement supplies nothing to its followers (supply-order); "
+           "the counter of a from loop is looked up in the whole function (fresh-cell|lookup-extent).",
+    "C11": " Also: a file that becomes known is in the module cache before its top-level code runs (once|initialising-mark).",
+    "C20": " Also: clean works on the directory as the user spelled it (dir-as-given).",
+}.items():
+    ADDED[_k] = (ADDED.get(_k, "") + _v).strip()
 # round 17 and the observations triaged after it (session 7)
 for _k, _v in {
     "C01": " Also: the operand-order and parking clauses of the binary operators (operand-order, shared with C15 / C09.operands).",
